@@ -360,12 +360,16 @@ func (c *channel) reconnect(maxRetries float64) {
 		// anything can be written to the new stream, or they would wait forever.
 		c.cancelPendingMsgs(true)
 		c.streamCtx, c.cancelStream = context.WithCancel(c.parentCtx)
-		c.gorumsStream, err = c.gorumsClient.NodeStream(c.streamCtx)
+		var stream ordering.Gorums_NodeStreamClient
+		stream, err = c.gorumsClient.NodeStream(c.streamCtx)
 		if err == nil {
+			c.gorumsStream = stream
 			c.streamBroken.clear()
 			c.streamMut.Unlock()
 			return
 		}
+		// keep the old (broken) stream: the receiver may be about to read from it
+		// and must find a stream that fails, not a nil one.
 		c.cancelStream()
 		c.streamMut.Unlock()
 		c.setLastErr(err)
